@@ -115,7 +115,9 @@ pub fn budget_drive(args: &[String]) {
         }
         w.end(json!({"e": "Note", "case": id, "k": k}));
         // swept budgets
-        let mut budgets: Vec<u64> = vec![0, 1, 2, k.saturating_sub(1), k, k + 1, k + 2, k / 2, k / 3 + 1, 2 * k + 5];
+        // ... and budgets far beyond anything a run needs (a sufficient budget never changes the result, however large)
+        let mut budgets: Vec<u64> = vec![0, 1, 2, k.saturating_sub(1), k, k + 1, k + 2, k / 2, k / 3 + 1, 2 * k + 5,
+                                         1 << 32, (1 << 63) - 1, 1 << 63, (1 << 63) + 1, u64::MAX - 1, u64::MAX];
         while budgets.len() < sweep {
             budgets.push(1 + rng.below((k + 3) as usize) as u64);
         }
@@ -225,10 +227,23 @@ pub fn gc_drive(args: &[String]) {
     let start = arg_num(args, "--start-case", 0) as usize;
     let append = arg_num(args, "--append", 0) == 1;
     let k = arg_num(args, "--schedules", 3) as usize;
+    // --cases FILE: the programs are read from an ndjson file ({prog}) instead of being generated
+    let cases: Option<Vec<J>> = arg_val(args, "--cases").map(|f| {
+        std::fs::read_to_string(f).expect("cases file").lines().filter(|l| !l.trim().is_empty())
+            .map(|l| serde_json::from_str::<J>(l).expect("case json")).collect()
+    });
     let mut w = TraceWriter::open(out, append, 30_000);
     for id in start..n {
         let mut rng = Rng::new(seed.wrapping_mul(7_919_117).wrapping_add(id as u64));
-        let p = Gen::new(&mut rng, Profile::named(&profile)).program();
+        let p = match &cases {
+            Some(cs) => {
+                if id >= cs.len() {
+                    break;
+                }
+                P::from_json(&cs[id]["prog"])
+            }
+            None => Gen::new(&mut rng, Profile::named(&profile)).program(),
+        };
         let compiled = match cao_lang::compiler::compile(p.to_module(), None) {
             Ok(c) => c,
             Err(_) => continue,
@@ -274,6 +289,19 @@ fn residue_json(vm: &Vm<Host>) -> J {
     let r = vm.runtime_data.verif_residue();
     json!({"stack": r.value_stack_len, "calls": r.call_stack_len, "globals": r.globals_len, "objects": r.objects,
            "upvals": r.open_upvalues, "allocated": r.allocated, "next_gc": r.next_gc})
+}
+
+/// accounted bytes once the VM has settled after a run: the host creates two objects the documented way and releases them
+/// at once, then collects; what is left is what the globals reach
+fn settled_bytes(vm: &mut Vm<Host>) -> u64 {
+    if let Ok(g) = vm.init_string("released by the host") {
+        let _ = g.into_inner();
+    }
+    if let Ok(g) = vm.init_table() {
+        let _: Value = g.into();
+    }
+    vm.runtime_data.gc();
+    vm.runtime_data.verif_residue().allocated as u64
 }
 
 fn life_programs(rng: &mut Rng) -> Vec<(String, P, u64)> {
@@ -352,12 +380,16 @@ pub fn life_drive(args: &[String]) {
                 let res = vm.run(&compiled[pi]);
                 let mut o = observation(&vm, &compiled[pi], &res);
                 o["trace"] = json!([]);
-                let here = (digest(&o), residue_json(&vm));
+                let mut hres = residue_json(&vm);
+                hres["live"] = json!(settled_bytes(&mut vm));
+                let here = (digest(&o), hres);
                 let mut fresh = make_vm(p, &RunCfg { max_instr: *budget });
                 let fres = fresh.run(&compiled[pi]);
                 let mut fo = observation(&fresh, &compiled[pi], &fres);
                 fo["trace"] = json!([]);
-                (here, (digest(&fo), residue_json(&fresh)), o["st"].clone(), o["kind"].clone())
+                let mut fr = residue_json(&fresh);
+                fr["live"] = json!(settled_bytes(&mut fresh));
+                (here, (digest(&fo), fr), o["st"].clone(), o["kind"].clone())
             });
             match r {
                 Ok(((out, res), (fout, fres), st, kind)) => w.end(json!({"e": "Run", "p": name, "out": out, "res": res, "fout": fout, "fres": fres,
@@ -409,11 +441,26 @@ pub fn heap_drive(args: &[String]) {
             let mut vm = make_vm(&p, &RunCfg::default());
             let _ = vm.run(&compiled);
             let ev = verif::take_events();
+            // the run is over: no instruction or host function is in progress, so no guard exists any more.  The host
+            // creates two objects the documented way, releases them at once, and collects: the collector must find
+            // nothing guarded and must free them (and everything else the globals do not reach)
+            {
+                let a = vm.init_string("released by the host");
+                if let Ok(g) = a {
+                    let _ = g.into_inner();
+                }
+                let b = vm.init_table();
+                if let Ok(g) = b {
+                    let _: Value = g.into();
+                }
+            }
+            vm.runtime_data.gc();
+            let ev2 = verif::take_events();
             verif::reset(false);
-            ev
+            (ev, ev2)
         });
-        let ev = match r {
-            Ok(ev) => ev,
+        let (ev, ev2) = match r {
+            Ok(x) => x,
             Err(msg) => {
                 w.end(json!({"e": "Panic", "case": id, "msg": msg}));
                 continue;
@@ -421,7 +468,11 @@ pub fn heap_drive(args: &[String]) {
         };
         w.line(json!({"e": "Reset", "case": id, "profile": profile}));
         let mut ids: HashMap<usize, usize> = HashMap::new();
-        for e in ev {
+        let n1 = ev.len();
+        for (pos, e) in ev.into_iter().chain(ev2.into_iter()).enumerate() {
+            if pos == n1 {
+                w.line(json!({"e": "Quiesce"}));
+            }
             match e {
                 Event::GcSnapshot(s) => {
                     ids.clear();
